@@ -143,6 +143,35 @@ func (m *monC11) OnStep(r *Runner, st *Step) {
 		if x, ok := burned[w.BondedPool.String()]; ok && x.IsPositive() {
 			r.Probe("c11_rebalance_down")
 		}
+		// exact bookkeeping of the rebalance: what is burned from the staking pools is exactly what left the validators,
+		// and what is minted is exactly what arrived on them (validator status changes in the same end-of-block move
+		// tokens between pools without changing any validator's tokens)
+		dec, inc := sdkmath.ZeroInt(), sdkmath.ZeroInt()
+		for v, a := range pre.StVals {
+			b, ok := post.StVals[v]
+			if !ok {
+				continue
+			}
+			if b.Tokens.LT(a.Tokens) {
+				dec = dec.Add(a.Tokens.Sub(b.Tokens))
+			} else {
+				inc = inc.Add(b.Tokens.Sub(a.Tokens))
+			}
+		}
+		burnedPools := sdkmath.ZeroInt()
+		for _, acc := range []string{w.BondedPool.String(), w.NotBonded.String()} {
+			if x, ok := burned[acc]; ok {
+				burnedPools = burnedPools.Add(x)
+			}
+		}
+		if !burnedPools.Equal(dec) {
+			r.Violate("C11.a", "burn-differs-from-unbonded-tokens", fmt.Sprintf("end-of-block burned %s %s from the staking pools but validators gave up %s", burnedPools, BondDenom, dec))
+			return
+		}
+		if !mintedMod.Equal(inc) {
+			r.Violate("C11.a", "mint-differs-from-bonded-tokens", fmt.Sprintf("end-of-block minted %s %s but validators received %s", mintedMod, BondDenom, inc))
+			return
+		}
 		// (b) the custody account holds no staking-denom coins once the block has ended
 		r.Eval("C11.b")
 		if b := post.BalOf(w.ModuleAddr, BondDenom); !b.IsZero() {
@@ -165,6 +194,18 @@ func (m *monC11) OnStep(r *Runner, st *Step) {
 		if len(st.Slashes) > 0 {
 			r.Probe("c11_real_slash")
 		}
+	}
+	// the bonded pool holds exactly the bonded validators' tokens (x/staking's own module-account invariant)
+	r.Eval("C11.a")
+	sumBonded := sdkmath.ZeroInt()
+	for _, v := range post.StVals {
+		if v.IsBonded() {
+			sumBonded = sumBonded.Add(v.Tokens)
+		}
+	}
+	if !post.BalOf(w.BondedPool, BondDenom).Equal(sumBonded) {
+		r.Violate("C11.a", "bonded-pool-mismatch", fmt.Sprintf("bonded pool holds %s %s, bonded validators' tokens sum to %s", post.BalOf(w.BondedPool, BondDenom), BondDenom, sumBonded))
+		return
 	}
 	// (d) the bank supply queries report the supply net of the alliance-bonded amount
 	r.Eval("C11.d")
